@@ -38,8 +38,11 @@ func (g *graph[T]) checkCycle() error {
 	// iterate on vertices in a name-order to render a predicable error message
 	// this is required by tests and enforce command reproducibility by user, which otherwise could be confusing
 	names := utils.MapKeys(g.vertices)
+	// vertices already explored without finding a cycle: nothing reachable from them is on a cycle, so they are
+	// not explored again (a dense acyclic graph has exponentially many paths)
+	done := map[*vertex[T]]bool{}
 	for _, name := range names {
-		err := searchCycle([]string{name}, g.vertices[name])
+		err := searchCycle([]string{name}, g.vertices[name], done)
 		if err != nil {
 			return err
 		}
@@ -47,17 +50,21 @@ func (g *graph[T]) checkCycle() error {
 	return nil
 }
 
-func searchCycle[T any](path []string, v *vertex[T]) error {
+func searchCycle[T any](path []string, v *vertex[T], done map[*vertex[T]]bool) error {
+	if done[v] {
+		return nil
+	}
 	names := utils.MapKeys(v.children)
 	for _, name := range names {
 		if i := slices.Index(path, name); i >= 0 {
 			return fmt.Errorf("dependency cycle detected: %s -> %s", strings.Join(path[i:], " -> "), name)
 		}
 		ch := v.children[name]
-		err := searchCycle(append(path, name), ch)
+		err := searchCycle(append(path, name), ch, done)
 		if err != nil {
 			return err
 		}
 	}
+	done[v] = true
 	return nil
 }
